@@ -1,7 +1,7 @@
 (** C07 — macro expansion is hygienic: property theorems only. *)
 From Coq Require Import NArith List Bool.
 From ChibiV Require Import C07.Env C07.EnvProofs C07.Expand C07.RenamerProofs C07.ScopeProofs C07.ExpandProofs
-  C07.SynCloProofs C07.Strip C07.StripProofs.
+  C07.SynCloProofs C07.Strip C07.StripProofs C07.CoreProofs.
 Import ListNotations.
 
 (** referential transparency: an identifier inserted by a macro (closure object over the definition
@@ -266,3 +266,16 @@ Print Assumptions strip_idempotent.
 Theorem strip_model_is_spec : forall x, strip_spec (embed x) = embed (strip x).
 Proof. exact strip_embed. Qed.
 Print Assumptions strip_model_is_spec.
+
+(** *** renaming invariance of the model expander + analyze (round 3: the induction over [resolve])
+    if in the analysis of a program the bare symbols a, b only ever resolve to lambda-bound cells and never
+    occur in quoted data (the guarded run [a; b] succeeds; it also refuses let-syntax / letrec-syntax), then
+    swapping a and b in the user text and in the keys of the user frames U — b may be if, tmp, car, any name
+    the macro templates or the global environment G use — gives the very same analysis result (binding
+    structure, cells, final state), for every macro table of the model's template language *)
+Theorem rename_invariance_core : forall a b mt G fuel st U x r,
+  no_local G -> wfx x = true ->
+  resolve [a; b] mt fuel st [] (U ++ G) x = OK r ->
+  resolve [] mt fuel st [] (swap_env a b U ++ G) (swapU a b x) = OK r.
+Proof. exact rename_invariance_core_thm. Qed.
+Print Assumptions rename_invariance_core.
